@@ -28,6 +28,12 @@ KINDS = {
 }
 
 
+KINDS['fuzz'] = ['-DCMAKE_BUILD_TYPE=RelWithDebInfo', '-DCMAKE_C_COMPILER=clang', '-DCMAKE_CXX_COMPILER=clang++', '-DCMAKE_EXPORT_COMPILE_COMMANDS=ON',
+                 '-DCMAKE_CXX_FLAGS_RELWITHDEBINFO=-O1 -g -DNDEBUG',
+                 '-DCMAKE_CXX_FLAGS=-Wno-error -D' + GUARD + ' -fsanitize=fuzzer-no-link,address,undefined -fno-sanitize-recover=undefined',
+                 '-DCMAKE_EXE_LINKER_FLAGS=-fsanitize=address,undefined']
+
+
 class BuildError(Exception):
     pass
 
@@ -64,3 +70,41 @@ def ensure(kind='fast', quiet=True):
 if __name__ == '__main__':
     for k in sys.argv[1:] or ['fast', 'san']:
         print(k, ensure(k))
+
+
+def ensure_fuzzer():
+    """build the libFuzzer target .build/fuzz/unc_fuzz from /verif/fuzz/harness.cpp + all uncrustify objects (main renamed)"""
+    import json
+    import shlex
+    ensure('fuzz')
+    d = os.path.join(BUILD, 'fuzz')
+    cc = json.load(open(os.path.join(d, 'compile_commands.json')))
+    entry = next(e for e in cc if e['file'].endswith('/src/uncrustify.cpp'))
+    argv = shlex.split(entry['command'])
+    # strip "-o X -c file"
+    flags = []
+    skip = 0
+    for a in argv[1:]:
+        if skip:
+            skip -= 1
+            continue
+        if a in ('-o', '-c', '-MF', '-MT'):
+            skip = 1
+            continue
+        if a == '-MD':
+            continue
+        flags.append(a)
+    out = os.path.join(d, 'unc_fuzz')
+    main_o = os.path.join(d, 'unc_main_renamed.o')
+    harness_o = os.path.join(d, 'harness.o')
+    harness_src = os.path.join(ROOT, 'fuzz', 'harness.cpp')
+    objs = subprocess.run(['ninja', '-C', d, '-t', 'targets', 'all'], capture_output=True, text=True).stdout
+    objs = [os.path.join(d, l.split(':')[0]) for l in objs.splitlines() if l.split(':')[0].endswith('.o') and 'uncrustify.cpp.o' not in l]
+    objs = [o for o in objs if os.path.exists(o)]
+    for cmd in ([argv[0]] + flags + ['-Dmain=unc_cli_main', '-c', entry['file'], '-o', main_o],
+                [argv[0]] + flags + ['-I', os.path.join(REPO, 'src'), '-c', harness_src, '-o', harness_o],
+                [argv[0], '-fsanitize=fuzzer,address,undefined', '-Wl,--wrap=exit', '-o', out, harness_o, main_o] + objs):
+        r = subprocess.run(cmd, capture_output=True, text=True, cwd=entry['directory'])
+        if r.returncode != 0:
+            raise BuildError('fuzzer build failed: %s\n%s' % (' '.join(cmd)[:300], r.stderr[-3000:]))
+    return out
